@@ -7,7 +7,8 @@ from . import ref
 from .world import WFError, components
 
 
-def compare_joint(B, W, pre, post, targets, transform, label, renorm=False, observe=True, operator=None, headroom=0):
+def compare_joint(B, W, pre, post, targets, transform, label, renorm=False, observe=True, operator=None, headroom=0,
+                  unchanged_kind="bystander"):
     """For every component of the common coarsening of the pre/post block partitions:
     post joint state == transform(pre joint state) if the component contains the targets, else == pre.
     transform(rho, dims, pos) -> rho' (unnormalised when renorm=True: compared up to the trace).
@@ -40,7 +41,7 @@ def compare_joint(B, W, pre, post, targets, transform, label, renorm=False, obse
                 w = ref.apply_op_vec(psi0, dims, pos, operator(dims, pos))
                 r = B.require_parallel(psi1, w, f"{label}: joint state of {names}", "state-map", same_norm=not renorm)
             else:
-                r = B.require_parallel(psi1, psi0, f"{label}: bystander component {names} changed", "bystander",
+                r = B.require_parallel(psi1, psi0, f"{label}: {unchanged_kind} component {names} changed", unchanged_kind,
                                        same_norm=True)
             if observe and hasattr(B, "observed"):
                 B.observed["postvec:" + ",".join(names)] = psi1
@@ -65,11 +66,17 @@ def compare_joint(B, W, pre, post, targets, transform, label, renorm=False, obse
             else:
                 r = B.require_zero([rho1 - exp], f"{label}: joint state of {names}", "state-map")
         else:
-            r = B.require_zero([rho1 - rho0], f"{label}: bystander component {names} changed", "bystander")
+            r = B.require_zero([rho1 - rho0], f"{label}: {unchanged_kind} component {names} changed", unchanged_kind)
         if observe and hasattr(B, "observed"):
             B.observed["post:" + ",".join(names)] = rho1
         ok = ok and (r is not False)
     return ok
+
+
+def compare_unchanged(B, W, pre, post, label, observe=True):
+    """the joint state of every component of the common coarsening of the pre/post partitions is unchanged
+    (density matrices; state vectors up to a global phase when every block involved is held as label/vector)"""
+    return compare_joint(B, W, pre, post, [], None, label, observe=observe, unchanged_kind="unchanged")
 
 
 def _pad_vec(psi, dims, new):
